@@ -213,6 +213,30 @@ def rule_p2(ctx, F):
         retry = [pt for pt, n in find(fn, "ts_lexer__get_chunk(self)")]
         ctx.gate("P3", fn, retry, [("re-fetch only for a character that may continue beyond the chunk", [("self->data.lookahead == -1", True), ("ts_lexer__lookahead_is_truncated(self, size)", True)]),
                                    ("…with fewer than 4 bytes left in the chunk", [("_ < 4", True), ("ts_lexer__lookahead_is_truncated(self, size)", True)])], accept_desc="the chunk re-fetch")
+        # …and the converse: whenever the truncation test says yes, the re-fetch happens (no second opinion that knows only one encoding)
+        class Retried(Monitor):
+            def elem(self, m, pt, e, s):
+                if pt in retry:
+                    return 2
+                return m
+
+            def edge(self, m, bid, edge, cond, truth, s):
+                if m == 0 and cond is not None and truth is not None:
+                    if s.m.cond_matches("ts_lexer__lookahead_is_truncated(self, size)", True, cond, truth):
+                        return 1
+                return m
+
+            def exit(self, m, bid, s):
+                if m == 1:
+                    return Viol("the truncation test said the character may continue, but the function returns without having fetched a fresh chunk")
+                return None
+        sr = Search(fn, Retried())
+        v = sr.run(0)
+        if v is None:
+            ctx.ok("P3", "ts_lexer__get_lookahead:truncated-always-retried", "every path on which the truncation test answers yes reaches the chunk re-fetch (%d states)" % sr.states)
+        else:
+            ctx.bad("P3", "ts_lexer__get_lookahead:truncated-always-retried", "ts_lexer__get_lookahead: %s — a further condition on the retry (e.g. one derived from the UTF-8 lead byte) leaves characters of other encodings "
+                    "that are cut off by a chunk end undecoded" % v.msg, {"path": sr.render_path(v.path)[-6:] if v.path else []})
     h = F.fns.get("ts_lexer__lookahead_is_truncated")
     if h is not None:
         yes = [pt for pt, e in h.points() if e.get("k") == "ret" and not (strip(e["e"]).get("k") == "int" and not strip(e["e"]).get("v"))]
